@@ -91,6 +91,29 @@ def check_doc(acc, headers, hist, pre=()):
         exp = [h for h in headers if h in t]
         if got != exp:
             acc.violation(Viol('spine-type-query', 'differs-from-projected-header-line', dict(case, headers_arg=list(ts)), exp, got))
+    # one options object used for several exports, its selection re-assigned in between (Exporter.export_string / kp.export take such an object)
+    try:
+        ex = kp.Exporter()
+        opts = kp.ExportOptions()
+        for ids in ([0], [ns - 1], list(range(ns)), [0]):
+            opts.spine_ids = list(ids)
+            acc.count('transitions')
+            got = ex.export_string(doc, opts)
+            exp = project(rows, lines, lambda c, s=set(ids): c.spine in s)
+            if got != exp:
+                acc.violation(Viol('projection-options-object-reused', 'differs-from-column-projection', dict(case, options={'spine_ids': list(ids), 'options_object': 'reused'}), exp, got))
+                break
+        opts2 = kp.ExportOptions()
+        for ts in ([headers[0]], [headers[-1]], sorted(set(headers))):
+            opts2.spine_types = list(ts)
+            acc.count('transitions')
+            got = kp.Exporter().export_string(doc, opts2)
+            exp = project(rows, lines, lambda c, t=set(ts): headers[c.spine] in t)
+            if got != exp:
+                acc.violation(Viol('projection-options-object-reused', 'differs-from-column-projection', dict(case, options={'spine_types': list(ts), 'options_object': 'reused'}), exp, got))
+                break
+    except Exception as e:  # noqa
+        acc.violation(Viol('projection-options-object-reused', 'raises', case, None, f'{type(e).__name__}: {str(e)[:100]}'))
     acc.count('transitions')
     got = kp.spine_types(doc)
     exp = [h for h in headers if h in DEFAULT_TYPES]
@@ -184,7 +207,7 @@ def run(ctx):
     big = Acc()
     from .. import docspace as D
     hb = [(h, ['k', 'b', 'd', 'h', 'd', 'S0', 'd', 'H', 'd', 'h', 'J0', 'd', 'H', 'b'], seed + k) for k, h in enumerate((['**kern', '**text'], ['**text', '**kern', '**kern'], ['**kern', '**kern'], ['**kern', '**text', '**kern', '**dynam']))]
-    for h, seq, sd in D.huge_docs(seed + 6, headers=(('**kern', '**text'), ('**text', '**kern', '**kern'))) + D.giant_jobs(seed) + D.aligned_jobs(seed) + hb + [(['**kern', '**kern'], ['d', 'S0', 'S0', 'S0', 'S0', 'd', 'Z0', 'd', 'S3', 'd', 'J0', 'J0', 'd'], seed + 3),
+    for h, seq, sd in D.huge_docs(seed + 6, headers=(('**kern', '**text'), ('**text', '**kern', '**kern'))) + D.giant_jobs(seed) + D.aligned_jobs(seed) + D.aligned_jobs(seed + 1, totals=(1100,)) + D.aligned_jobs(seed + 2, totals=(1100,)) + D.aligned_jobs(seed + 3, totals=(1100,)) + hb + [(['**kern', '**kern'], ['d', 'S0', 'S0', 'S0', 'S0', 'd', 'Z0', 'd', 'S3', 'd', 'J0', 'J0', 'd'], seed + 3),
                        (['**kern', '**text', '**kern'], ['d', 'S2', 'S2', 'S2', 'S2', 'S2', 'd', 'W3', 'd', 'J2', 'd', 'J2', 'd'], seed + 4),
                        (['**kern', '**text', '**kern'], ['k', 'd', 'S0', 'S0', 'S0', 'd', 'S3', 'd', 'Y0', 'd', 'J0', 'J0', 'd', 'X1', 'd', 'b', 'S2', 'S3', 'd', 'J2', 'J2', 'd'], seed)]:
         mm = D.materialise((h, seq, sd), cap=16)
